@@ -50,6 +50,20 @@ def spacingToSize (start stop spacing : Rat) (adjustRegion : Bool) : Int × Rat 
   let stop' := if adjustRegion then start + ((size : Rat) - 1) * spacing else stop
   (size, stop')
 
+/-! Python/numpy primitives used by the statement-by-statement translations (Gen/Coords.lean) -/
+/-- Using `None` as a number is a `TypeError`. -/
+def optGet {α : Type} : Option α → Except Err α
+  | some a => .ok a
+  | none => .error .other
+/-- `values[i]` (`IndexError` when out of range). -/
+def idxE (l : List Rat) (i : Nat) : Except Err Rat :=
+  match l[i]? with
+  | some v => .ok v
+  | none => .error .other
+/-- `numpy.linspace(a, b, n)` (`ValueError` for a negative count). -/
+def linspaceE (a b : Rat) (n : Int) : Except Err (List Rat) :=
+  if n < 0 then .error .valueError else .ok (linspace a b n.toNat)
+
 inductive Adjust where | spacing | region | bad
   deriving Repr, DecidableEq
 
